@@ -85,11 +85,12 @@ PROPS["C06"] = {
 PROPS["C10"] = {
         "modules": ["Hertz.Props.C10"],
         "rule": "Sequential scripts on one HostClient (every single request of method x 10 faults x 3 ctx modes x dial-failure for MaxConns 1..2 (thorough 1..4), wait off/on; every pair of requests for MaxConns=2; random scripts of 3..8 requests): the Lean program model predicts outcome class, gauges and the complete hook trace. "
-                "Concurrent runs (2..4 goroutines x 1..3 requests, MaxConns 1..4, wait on/off, fault per exchange from {ok, ok+close, silent close while idle (write ok / write fails), close before first byte, mid-header, mid-body, stall, stall mid-body, garbage}, dial errors, ctx cancelled before/after send, optional 3ms idle reaper, seeded yields at the lock boundaries): the recorded lock-region trace must be accepted by Pool.step with equal (connsCount, len(conns), connsWait.len()) and the quiescent gauges must match. Plus the directed stale-waiter schedule.",
+                "Concurrent runs (2..4 goroutines x 1..3 requests, MaxConns 1..4, wait on/off, fault per exchange from {ok, ok+close, silent close while idle (write ok / write fails), close before first byte, mid-header, mid-body, stall, stall mid-body, garbage}, dial errors, ctx cancelled before/after send, optional 3ms idle reaper, seeded yields at the lock boundaries): the recorded lock-region trace must be accepted by Pool.step with equal (connsCount, len(conns), connsWait.len()) and the quiescent gauges must match. Plus the directed stale-waiter schedule. "
+                "Client level (op c10cli, the real pkg/app/client.Client with its host-client map and 10 s janitor on three hosts): step scripts over {complete call, call kept in flight by the peer, release of such a call, wait for the janitor tick (real 10 s, all tick scripts side by side), sleep past MaxConnDuration} with MaxConnsPerHost 1..3, wait on/off, MaxConnDuration off / 1ns / 400ms, requests with and without Connection: close, peer policy on a close request {ignore, close silently, echo}: exhaustive families (fresh connection - age - retiring request - next request; call in flight - second call - release), directed tick scripts (all connections busy / one idle / none left at the tick) and random scripts; the Lean script simulator predicts every row (class, per host connsCount, idle, waiters, pending, ShouldRemove, HostClients created, dials, open connections) and the spec (open connections per host <= max in every row and over the run, ShouldRemove only with connsCount = 0, at the end count = idle = open) is evaluated on the implementation's rows.",
         "exhaustive_note": "single requests and pairs of requests over the whole request alphabet are enumerated completely (sequential); concurrent schedules are sampled",
         "level_text": "Pool bookkeeping modelled at lock-region granularity and proved in Lean for every schedule of any length and any number of callers: connsCount conservation, connsCount <= MaxConns, exclusivity of every connection, quiescence (all calls returned => every connection idle or closed, nothing owed, no live waiter), release only after a clean exchange, non-idempotent requests attempted once, retries only on ErrBadPoolConn from pooled connections. Model held to the code by trace validation of the real HostClient through hook H2 and by exact trace prediction for sequential runs. The pending-request gauge is proved zero at quiescence for every schedule (the early ctx return of Do decrements since the F10 fix; the decrement-before-every-return fact is regenerated from the source). One clause is false of the code and kept as a negated witness theorem with a partial version: the waiter queue length at quiescence (stale wantConn, known finding F16).",
         "level_note": "Trusted: Lean kernel, hook H2 (add-only verifPoint lines, hooks/client.patch), harness/driver, the in-memory peer. Response-belongs-to-caller and the timeout bound are runtime checks in the harness (echoed request id, exclusive-use flag, duration), not Lean theorems. Custom RetryIfFunc, streaming bodies, upgrade, SetMaxConns at run time and CloseIdleConnections are outside the model.",
-        "assumptions": ["the Dialer returns a fresh connection on every successful dial", "MaxConns is not changed while requests run", "default retry policy (RetryIfFunc == nil), no response body streaming, no protocol upgrade", "wantConn.waiting() may lag behind the wantConn.mu linearisation (modelled as a nondeterministic pop target)"],
+        "assumptions": ["the Dialer returns a fresh connection on every successful dial", "MaxConns is not changed while requests run", "Client level: MaxIdleConnDuration is set far above the janitor period in the tick scripts (the idle reaper and the janitor would otherwise race at 10 s); the janitor period and MaxConnDuration are real time in the harness", "default retry policy (RetryIfFunc == nil), no response body streaming, no protocol upgrade", "wantConn.waiting() may lag behind the wantConn.mu linearisation (modelled as a nondeterministic pop target)"],
         "timeout": {"quick": 120, "thorough": 1500},
         "search_timeout": 120,
     }
